@@ -278,6 +278,9 @@ func runReconnect(c rcCase) rcCase {
 
 	const wait = 6 * time.Second
 	settle := maxD + 60*time.Millisecond // longer than any back-off delay: an attempt that should not follow would show
+	if settle > 300*time.Millisecond {
+		settle = 300 * time.Millisecond // scripts with long delays (aborted cycles) are about something else
+	}
 	first := true
 	i := 0
 	for i < len(c.Script) && !c.Timeout {
@@ -356,7 +359,7 @@ func runReconnect(c rcCase) rcCase {
 		case in == "abort" || in == "sabort":
 			// the application gives up in the middle of a retry cycle: the previous step ended with the
 			// report of a failed dial (or with the close event), so the manager has just begun to sleep
-			// in its next back-off delay (these scripts use delays >= 80 ms); a moment later, well inside
+			// in its next back-off delay (these scripts use delays >= 400 ms); a moment later, well inside
 			// that sleep, Manager.Close() resp. socket.Disconnect() is called
 			time.Sleep(25 * time.Millisecond)
 			mu.Lock()
@@ -587,9 +590,9 @@ func reconnectMain(args []string) error {
 			}
 			pre = append(pre, ab)
 			if (k%2 == 1) == (ab == "abort") {
-				add(4, false, 80*ms, 320*ms, false, append(append([]string{}, pre...), "open", "ok", "drop", "f503", "garbage", "f503", "f503")...)
+				add(4, false, 400*ms, 800*ms, false, append(append([]string{}, pre...), "open", "ok", "drop", "f503", "garbage", "f503", "f503")...)
 			} else {
-				add(3, false, 80*ms, 320*ms, false, append(append([]string{}, pre...), "open", "f503", "garbage", "ok", "drop", "ok")...)
+				add(3, false, 400*ms, 800*ms, false, append(append([]string{}, pre...), "open", "f503", "garbage", "ok", "drop", "ok")...)
 			}
 		}
 	}
